@@ -21,6 +21,7 @@ import (
 	"sort"
 	"strings"
 
+	"github.com/go-openapi/analysis/internal/antipanic"
 	"github.com/go-openapi/analysis/internal/flatten/normalize"
 	"github.com/go-openapi/analysis/internal/flatten/operations"
 	"github.com/go-openapi/analysis/internal/flatten/replace"
@@ -170,7 +171,9 @@ func Flatten(opts FlattenOpts) error {
 }
 
 func expand(opts *FlattenOpts) error {
-	if err := spec.ExpandSpec(opts.Swagger(), opts.ExpandOpts(!opts.Expand)); err != nil {
+	if err := antipanic.Run(func() error {
+		return spec.ExpandSpec(opts.Swagger(), opts.ExpandOpts(!opts.Expand))
+	}); err != nil {
 		return err
 	}
 
@@ -323,7 +326,12 @@ func importNewRef(entry sortref.RefRevIdx, refStr string, opts *FlattenOpts) err
 
 	debugLog("resolving schema from remote $ref [%s]", refStr)
 
-	sch, err := spec.ResolveRefWithBase(opts.Swagger(), &entry.Ref, opts.ExpandOpts(false))
+	var sch *spec.Schema
+	err := antipanic.Run(func() (erp error) {
+		sch, erp = spec.ResolveRefWithBase(opts.Swagger(), &entry.Ref, opts.ExpandOpts(false))
+
+		return erp
+	})
 	if err != nil {
 		return ErrResolveSchema(err)
 	}
@@ -432,7 +440,12 @@ func importExternalReferences(opts *FlattenOpts) (bool, error) {
 		// update tracking with resolved schemas
 		if r.schema.Ref.String() != "" {
 			ref := spec.MustCreateRef(r.path)
-			sch, err := spec.ResolveRefWithBase(opts.Swagger(), &ref, opts.ExpandOpts(false))
+			var sch *spec.Schema
+			err := antipanic.Run(func() (erp error) {
+				sch, erp = spec.ResolveRefWithBase(opts.Swagger(), &ref, opts.ExpandOpts(false))
+
+				return erp
+			})
 			if err != nil {
 				return false, ErrResolveSchema(err)
 			}
